@@ -495,6 +495,8 @@ def initial_blob(name):
         b = _rich_deck()
     elif name == "ten_each":
         b = _ten_each_deck()
+    elif name == "twelve_last_first":
+        b = F.deck_twelve_last_first()
     elif name.startswith("corpus:"):
         b = F.read_bytes(os.path.join(F.REPO, name[len("corpus:"):]))
     else:
